@@ -38,7 +38,7 @@ func runC07Process(c *sim.Ctx, t *testing.T) {
 	c.PermuteOff = true
 	sim.Install(c)
 	defer sim.Uninstall()
-	cfg := genCfg{native: true, stubs: true, failOps: true, nullRet: true, permanents: true, badBranch: true, guards: true, guardEmits: true, loops: true, maxNodes: 4, multiCand: true, errorNode: true}
+	cfg := genCfg{native: true, stubs: true, failOps: true, nullRet: true, permanents: true, badBranch: true, guards: true, guardEmits: true, loops: true, maxNodes: 4, multiCand: true, errorNode: true, varStrings: true}
 	gs := genSpec(c, cfg)
 	spec, err := compile(gs)
 	if err != nil {
